@@ -7,5 +7,6 @@
 size_t REF_decode_all(void* dst, size_t cap, const void* src, size_t n, const void* dict, size_t dictSize);   /* (size_t)-1 = rejected */
 const char* REF_last_error(void);
 void REF_set_trace(FILE* f, int log_sequences);
+void REF_set_verify_checksum(int on);      /* off: a wrong stored checksum is not a reason to reject (used to compute the checksum of assembled frames) */
 uint64_t REF_xxh64(const void* data, size_t len, uint64_t seed);
 #endif
